@@ -24,6 +24,12 @@ Theorem C04_defined_before_use : forall ds rk order,
 Proof. exact defined_before_use. Qed.
 Print Assumptions C04_defined_before_use.
 
+(* the emission is total: the model never runs out of fuel, so the two theorems
+   above speak about every package *)
+Theorem C04_emission_total : forall ds, exists order, emit_order ds = Some order.
+Proof. exact emit_order_total. Qed.
+Print Assumptions C04_emission_total.
+
 (* a declaration that mentions itself (recursion) does not disturb the order *)
 Example C04_example :
   emit_order [ {| d_names := ["f"%string]; d_deps := ["g"%string; "T"%string] |};
